@@ -590,6 +590,16 @@ func runC10(e *Engine, r *Report, tier string) {
 	r.Rule("R1", "subject argument of value-taking APIs roots only at contract.Caller()", 12, "subject call sites in x/*/precompile")
 	r.Rule("R2", "call-data `from` accepted only behind the allowance check-and-decrement", 3, "share-transfer call sites + allowance routine")
 	r.Rule("R3", "dispatchers: readonly guard and governance switch dominate method.Run; go-ethereum readOnly flags", 8, "2 dispatchers x 3 + 4 EVM call kinds")
+	r.Rule("R5", "a queued withdrawal keeps its owner: a fee increase re-adds the record it read, unchanged in id / sender / destination / token (C05.R5 identity)", 1, "C05 obligations")
+	{
+		sub05 := NewReport("C05", "other")
+		runC05(e, sub05, tier)
+		for _, o := range sub05.Obls {
+			if o.Rule == "R5" && strings.HasSuffix(o.Construct, " identity") {
+				r.add("R5", "C05.R5 "+o.Construct, o.Status, o.Pos, o.Detail)
+			}
+		}
+	}
 	r.Rule("R4", "governance switch: every entry is compared; address and address/method matches return an error", 3, "the switch check")
 
 	inPrecompile := func(fn *ssa.Function) bool { return strings.HasSuffix(fnPkgPath(fn), "/precompile") }
